@@ -827,6 +827,37 @@ pub fn op_end() -> u64 {
     }
 }
 
+/// Harness-level waiting (the simulated thread pool of the C19 scenarios): the calling simulated
+/// thread blocks on `addr` until some thread calls `harness_wake(addr)`; callers re-check their
+/// condition in a loop. Same mechanics as waiting for a bin lock, without the lock statistics.
+pub fn harness_block(addr: usize) {
+    let me = match sim_id() {
+        Some(m) => m,
+        None => return,
+    };
+    let next = {
+        let mut g = sched().inner.lock().unwrap();
+        g.st[me] = St::Blocked(addr);
+        g.decide(me, SITE_BLOCKED, false)
+    };
+    if next != me {
+        wake(next);
+        wait_baton(me);
+    }
+}
+
+pub fn harness_wake(addr: usize) {
+    if sim_id().is_none() {
+        return;
+    }
+    let mut g = sched().inner.lock().unwrap();
+    for t in 0..g.n {
+        if g.st[t] == St::Blocked(addr) {
+            g.st[t] = St::Runnable;
+        }
+    }
+}
+
 /// Current logical clock without a decision point (for ledger stamps).
 pub fn now() -> u64 {
     CLOCK.load(Ordering::Relaxed)
